@@ -351,4 +351,53 @@ def progShortcutBeforeSetup : Progs :=
 /-- `Unpin` with the follower guard after the consensus calls' decision (dropped) -/
 def progUnpinNoFollowerGuard : Progs := { expected with unpin := expected.unpin.drop 1 }
 
+/-! ### round 8d: consensus faults over the interpreted sequences
+
+Every interpreter above ends in a statement that issues the consensus calls of the API call, in source order, and
+records them in `out.log` (`.retLogPin`, `.retLogExisting`, `.metaShortcut`: one `LogPin`; `.retLogUnpin`: one `LogUnpin`,
+after `.unpinDag` one per shard, the cluster-DAG, the meta pin, then the meta pin again). Each of those calls consults
+the fault position: the `k`-th (0-based) fails, the ones before it were applied to the pinset, the API call returns the
+error. So a faulted call is compared with the REGENERATED code too (an edit that adds / drops / reorders a consensus call
+moves the fault positions of the model). -/
+
+def withFault (pre : PinMap) (fault : Option Nat) (out : Out) : Out :=
+  match fault with
+  | none => out
+  | some k =>
+    if k < out.log.length then
+      { res := none, post := applyLog (out.log.take k) pre, log := out.log.take k, alloc := out.alloc }
+    else out
+
+/-- one API call run by the regenerated programs with the `fault`-th consensus call failing -/
+def stepSemF (P : Progs) (cfg : Cfg) (pre : PinMap) (op : Op) (chosen : List Nat) (fault : Option Nat) : Option Out :=
+  (stepSem P cfg pre op chosen).map (withFault pre fault)
+
 end CV.C04.Sem
+
+/-! ### round 8d: the clock of the expiry check
+
+`setupPin`: `!pin.ExpireAt.IsZero() && pin.ExpireAt.Before(time.Now())`; `PinUpdate`: `!opts.ExpireAt.IsZero() &&
+opts.ExpireAt.After(time.Now())`; `api.Pin.ExpiredAt(t)`: `IsZero() || Equal(unixZero)` → false, else `Before(t)`.
+Instants are nanoseconds since the Unix epoch (Int); the clock `now` is an INPUT. -/
+namespace CV.C04.Clock
+open CV
+
+/-- Go's zero `time.Time` (January 1, year 1, 00:00 UTC) as nanoseconds since the Unix epoch -/
+def goZero : Int := -62135596800000000000
+def isZero (t : Int) : Bool := t == goZero
+/-- the refusal of `setupPin` ("pin.ExpireAt set before current time") -/
+def refusedAt (now exp : Int) : Bool := !isZero exp && decide (exp < now)
+/-- `PinUpdate` takes the request's expiry only when it is set and still ahead -/
+def takenAt (now exp : Int) : Bool := !isZero exp && decide (now < exp)
+/-- `api.Pin.ExpiredAt(now)` -/
+def expiredAt (now exp : Int) : Bool := if isZero exp || exp == 0 then false else decide (exp < now)
+/-- the abstract instant of `Model/Pin.lean` a concrete expiry is, seen from `now` -/
+def abstract (now exp : Int) : Expiry :=
+  if exp == goZero then .zero else if exp == 0 then .unixZero else if exp < now then .past else .future (exp - now).toNat
+/-- the clock values the boundary is probed with: expiry − now in nanoseconds, `none` = the zero time -/
+def probes : List (Option Int) := [none, some (-3600000000000), some (-1), some 0, some 1, some 3600000000000, some 253402300800000000000]
+def probeExp (now : Int) : Option Int → Int
+  | none => goZero
+  | some d => now + d
+
+end CV.C04.Clock
